@@ -453,6 +453,77 @@ def g_superseded(rnd):
     return [old, mod("a", body, imports=[("p", "p")]), new]
 
 
+def g_deferred_augments(rnd):
+    """several modules whose augments have to wait for a node that a module sorting AFTER them grafts, and that go into
+    that same node -- with the same child name (conflict: which one is reported, and where) and with different ones"""
+    prov = rnd.choice(["z", "zz", "y"])
+    files = [mod("t", "  container c { leaf own { type string; } }\n"),
+             mod(prov, "  augment /t:c { container n { leaf base { type string; } } }\n", imports=[("t", "t")])]
+    waiting = rnd.sample(["b", "d", "e", "k"], rnd.randint(2, 3))
+    pool = ["same", "same", "same", "p", "q"]
+    for w in waiting:
+        body = ""
+        for _ in range(rnd.randint(1, 2)):
+            nm = rnd.choice(pool)
+            if rnd.random() < 0.3:
+                body += "  augment /t:c/%s:n { container %s { leaf in%s { type string; } } }\n" % (prov, nm, w)
+            else:
+                body += "  augment /t:c/%s:n { leaf %s { type %s; } }\n" % (prov, nm, rnd.choice(["string", "int8"]))
+        if rnd.random() < 0.3:
+            body += "  augment /t:c { leaf direct_%s { type string; } }\n" % w
+        files.append(mod(w, body, imports=[("t", "t"), (prov, prov)]))
+    if rnd.random() < 0.4:
+        # a second stage: waits for something one of the waiting modules grafts
+        files.append(mod("a", "  augment /t:c/%s:n/%s:same { leaf late { type string; } }\n" % (prov, waiting[0]),
+                         imports=[("t", "t"), (prov, prov), (waiting[0], waiting[0])]))
+    return files
+
+
+def g_submodule_clash(rnd):
+    """the same top-level name (typedef, grouping, identity) defined in two submodules of one module -- not valid YANG,
+    but accepted -- and used from the module, from a third submodule and from an importing module: which definition the
+    name denotes must be a function of the sources"""
+    subs = ["s1", "s2"] + (["s3"] if rnd.random() < 0.5 else [])
+    rnd.shuffle(subs)
+    kinds = rnd.sample(["typedef", "grouping", "identity"], rnd.randint(1, 3))
+    files = []
+    for i, sn in enumerate(subs):
+        body = ""
+        if "typedef" in kinds:
+            body += "  typedef t { type %s; }\n" % ["string { length 1..%d; }" % (i + 3), "int%d { range 0..%d; }" % (8 << (i % 2), i + 5),
+                                                 "boolean"][i % 3]
+        if "grouping" in kinds:
+            body += "  grouping g { leaf from_%s { type string; } }\n" % sn
+        if "identity" in kinds:
+            body += "  identity x;\n  identity under_%s { base x; }\n" % sn
+        files.append(mod(sn, body, sub_of="m", prefix="m"))
+    user = "  leaf in_user { type %s; }\n" % ("t" if "typedef" in kinds else "string")
+    if "grouping" in kinds:
+        user += "  container cu { uses g; }\n"
+    if "identity" in kinds:
+        user += "  leaf ru { type identityref { base x; } }\n"
+    files.append(mod("user", user, sub_of="m", prefix="m", includes=subs))
+    mbody = ""
+    if "typedef" in kinds:
+        mbody += "  leaf a { type t; }\n  typedef t2 { type t; }\n  leaf a2 { type t2; }\n"
+    if "grouping" in kinds:
+        mbody += "  container cm { uses g; }\n"
+    if "identity" in kinds:
+        mbody += "  leaf rm { type identityref { base x; } }\n  identity mine { base x; }\n"
+    incs = subs + ["user"]
+    rnd.shuffle(incs)
+    files.append(mod("m", mbody, includes=incs))
+    ubody = ""
+    if "typedef" in kinds:
+        ubody += "  leaf q { type m:t; }\n"
+    if "grouping" in kinds:
+        ubody += "  container cq { uses m:g; }\n"
+    if "identity" in kinds:
+        ubody += "  leaf rq { type identityref { base m:x; } }\n  identity far { base m:x; }\n"
+    files.append(mod("u", ubody, imports=[("m", "m")]))
+    return files
+
+
 def g_random(rnd):
     return files_of_schema(sg.random_schema(rnd, n_modules=rnd.randint(2, 4)))
 
@@ -490,15 +561,17 @@ GENS = [("random", g_random, 8), ("random-faulty", g_random_faulty, 3), ("identi
         ("dup-names", g_dup_names, 1), ("errors-multi", g_errors_multi, 2), ("missing-imports", g_missing_imports, 2),
         ("two-revisions", g_two_revisions, 1), ("typedefs", g_typedefs, 1),
         ("ident-shared-prefix", g_ident_shared_prefix, 2), ("typedef-cycles", g_typedef_cycles, 2), ("rev-norev", g_rev_norev, 2),
-        ("posix-patterns", g_posix_patterns, 2), ("identity-rings", g_identity_rings, 2), ("superseded", g_superseded, 2)]
+        ("posix-patterns", g_posix_patterns, 2), ("identity-rings", g_identity_rings, 2), ("superseded", g_superseded, 2),
+        ("deferred-augments", g_deferred_augments, 2), ("submodule-clash", g_submodule_clash, 2)]
 # families whose defects only show as a difference between runs with the SAME input: more repeats
 REPEATS = {"ident-shared-prefix": 6, "typedef-cycles": 6, "rev-norev": 5, "identities": 5, "posix-patterns": 6, "typedefs": 5,
-           "identity-rings": 6}
+           "identity-rings": 6, "deferred-augments": 8, "submodule-clash": 8}
 # how many orders of a case are also run with a Process in between (default 1)
 INCREMENTAL = {"superseded": 6, "rev-norev": 3, "two-revisions": 3}
 # always present, whatever the seed draws
 CORPUS = [("ident-shared-prefix", g_ident_shared_prefix, 6), ("typedef-cycles", g_typedef_cycles, 6), ("rev-norev", g_rev_norev, 4),
-          ("posix-patterns", g_posix_patterns, 6), ("identity-rings", g_identity_rings, 6), ("superseded", g_superseded, 4)]
+          ("posix-patterns", g_posix_patterns, 6), ("identity-rings", g_identity_rings, 6), ("superseded", g_superseded, 4),
+          ("deferred-augments", g_deferred_augments, 8), ("submodule-clash", g_submodule_clash, 8)]
 
 
 def go_line(files, opts="-", order=None):
@@ -771,7 +844,7 @@ def run(res, tier, seed, proof):
     cases = gen_cases(rnd, 300 if quick else 16000)
     k, max_perms = (3, 8) if quick else (5, 23)
     mm = metamorphic(res, cases, rnd, k, max_perms)
-    cli_cases = cases[:66] if quick else cases[:1500]
+    cli_cases = cases[:82] if quick else cases[:1500]
     cli = cli_part(res, cli_cases, rnd, 3 if quick else 4, 4 if quick else 8)
     cov = dict(
         evaluations=es_evals + mm["runs"] + cli["invocations"],
@@ -785,8 +858,9 @@ def run(res, tier, seed, proof):
              "typedef chains, same-named identities in modules sharing an own prefix, typedef cycles of length 2-4, one module "
              "name with and without revision plus importers, typedefs restricted by several typedefs/leaves that add "
              "posix-patterns (openconfig extension) or patterns only, identity derivation rings of 3-5 inside a module "
-             "and through mutually importing modules, a module superseded by a newer revision under union/identityref users; the "
-             "last six also as a fixed corpus); every case additionally with a Process between two loads (final outcome = batch): each processed k times in one order and in all (<= 4 files, capped) or sampled load orders; all "
+             "and through mutually importing modules, a module superseded by a newer revision under union/identityref users, several "
+             "modules whose augments wait for a node grafted by a later-sorting module and go into that same node, one top-level "
+             "name defined in two submodules of a module; the last eight also as a fixed corpus); every case additionally with a Process between two loads (final outcome = batch): each processed k times in one order and in all (<= 4 files, capped) or sampled load orders; all "
              "dumps byte-identical (ids included; id-only differences counted), error list ordered and duplicate-free.  (3) the "
              "goyang command with --format tree/types on a prefix of the same sets, repeated and with permuted arguments.  "
              "non-trivial = more than one file / distinct set of error texts",
